@@ -275,6 +275,8 @@ ITER_MODELS = [
     (re.compile(r"^(std::iter::|core::iter::)?repeat_n::<"), m_repeat_n),
     (re.compile(r" as Iterator>::(chain|zip|take_while|filter|skip_while)::<"), m_adaptor),
     (re.compile(r"^<\[.*; N\] as IntoIterator>::into_iter$|^<\[.*; \d+\] as IntoIterator>::into_iter$|^<(Chain|Zip|TakeWhile|Once|RepeatN|std::iter::\w+|core::iter::\w+)<.*> as IntoIterator>::into_iter$"), m_into_iter),
+    (re.compile(r"^<&(mut )?(Vec|BTreeMap|std::vec::Vec|std::collections::BTreeMap)<.*> as IntoIterator>::into_iter$"), m_into_iter),
     (re.compile(r"^<(Chain|Zip|TakeWhile|Once|RepeatN|Filter|std::iter::\w+|core::iter::\w+|std::array::IntoIter)<.*> as Iterator>::next$"), m_next),
+    (re.compile(r"^<(std::slice::Iter|core::slice::Iter|std::collections::btree_map::Iter|btree_map::Iter)<.*> as Iterator>::next$"), m_next),
     (re.compile(r"^(std::vec::)?Vec::<.*>::splice::<"), m_vec_splice),
 ]
